@@ -7,6 +7,8 @@ import (
 	"fmt"
 	"go/types"
 	"math/bits"
+	"net"
+	"os"
 	"strings"
 
 	"golang.org/x/tools/go/ssa"
@@ -125,6 +127,12 @@ func registerIntrinsics(p *Program) {
 	})
 	p.reg("verif_Quiesce", func(ex *Exec, fr *Frame, args []Value) Value {
 		ex.quiesce(fr)
+		return nil
+	})
+	p.reg("verif_Debug", func(ex *Exec, fr *Frame, args []Value) Value {
+		if os.Getenv("GOSYM_DEBUG") != "" {
+			fmt.Fprintf(os.Stderr, "verif_Debug %s: %s | %s\n", ex.goString(args[0]), ex.errorText(fr, args[1]), valString(args[1]))
+		}
 		return nil
 	})
 	p.reg("verif_Observe", func(ex *Exec, fr *Frame, args []Value) Value {
@@ -745,5 +753,31 @@ func init() {
 		p.reg("math/bits.TrailingZeros16", tz(16))
 		p.reg("math/bits.TrailingZeros8", tz(8))
 		p.reg("math/bits.TrailingZeros", tz(64))
+	})
+}
+
+// ---- net: IP parsing/formatting on concrete values (the library code goes
+// through net/netip + unique, which needs the run-time's weak pointers) ----
+func init() {
+	extraIntrinsics = append(extraIntrinsics, func(p *Program) {
+		p.reg("net.ParseIP", func(ex *Exec, fr *Frame, args []Value) Value {
+			s, ok := args[0].(string)
+			if !ok {
+				ex.unsupported("net.ParseIP on a symbolic string")
+			}
+			ip := net.ParseIP(s)
+			if ip == nil {
+				return []Value(nil)
+			}
+			return bytesToValues(ip)
+		})
+		p.reg("(net.IP).String", func(ex *Exec, fr *Frame, args []Value) Value {
+			vs, _ := args[0].([]Value)
+			b, ok := concreteBytes(vs)
+			if !ok {
+				ex.unsupported("net.IP.String on symbolic bytes")
+			}
+			return net.IP(b).String()
+		})
 	})
 }
